@@ -511,10 +511,11 @@ mod c03_race {
             let total_threads = 3 * threads;
             let arrived = AtomicUsize::new(0);
             let panicked = AtomicBool::new(false);
+            let panic_msg = std::sync::Mutex::new(None::<String>);
             std::thread::scope(|sc| {
                 for h in 0..3 {
                     for t in 0..threads {
-                        let (items, gated, done, arrived, panicked) = (&items[h], &gated[h], &done[h], &arrived, &panicked);
+                        let (items, gated, done, arrived, panicked, panic_msg) = (&items[h], &gated[h], &done[h], &arrived, &panicked, &panic_msg);
                         sc.spawn(move || {
                             arrived.fetch_add(1, Ordering::SeqCst);
                             let mut spins = 0u32;
@@ -531,7 +532,11 @@ mod c03_race {
                                     gated[*g].push(RecordId::from(*r), segment_of(&done[*r][*g]));
                                 }
                             }));
-                            if r.is_err() {
+                            if let Err(p) = r {
+                                let msg = p.downcast_ref::<String>().cloned().or_else(|| p.downcast_ref::<&str>().map(|s| (*s).to_string())).unwrap_or_default();
+                                if !msg.contains("PoisonError") {
+                                    panic_msg.lock().unwrap_or_else(|e| e.into_inner()).get_or_insert(canon(&msg));
+                                }
                                 panicked.store(true, Ordering::SeqCst);
                             }
                         });
@@ -540,7 +545,15 @@ mod c03_race {
             });
             let mut bad: Option<String> = None;
             if panicked.load(Ordering::SeqCst) {
-                bad = Some(format!("{round}:0:push-panicked"));
+                // a push panicked under the batcher mutex (it is poisoned now): the round has failed, nothing more to ask
+                first_fail.get_or_insert(format!("{round}:0:push-panicked:{}", panic_msg.lock().unwrap_or_else(|e| e.into_inner()).clone().unwrap_or_default().replace(' ', "_")));
+                drop(gated);
+                drop(m_ctxs);
+                for v in validators {
+                    let _ = guarded(move || drop(v));
+                }
+                let _ = crate::ipa_verif::c16::take_validations(&marker);
+                continue;
             }
             // (1) the stored table = the in-order table
             for h in 0..3 {
